@@ -214,6 +214,57 @@ theorem C09_no_early_delete_recovery (rel : RowRel) (R0 : List Row) (a b : Nat) 
       | 1 => simp at hk
       | k + 2 => simp at hk
 
+/-- Where manifests may be dropped (regenerated facts): `Job.Run`'s upload-failure branch deletes the
+manifest, so `uploadFile` must fail ONLY with the error of the storage write itself (never after a
+write that succeeded, e.g. a late `ctx.Err()`); and the stale-age check of `recoverManifest` only
+warns — recovery does not depend on the manifest's age. -/
+theorem C09_manifest_drop_sites : uploadErrorOnlyFromStorageWrite = true ∧ staleManifestWarnOnly = true := by
+  decide
+
+/-- A job deletes its manifest only in a state where the complete output is on storage and every
+input the manifest lists is gone (all k, all states with no manifest pending). -/
+theorem C09_manifest_deleted_last (rel : RowRel) (R0 : List Row) (a b : Nat) (d : Nat → List Row → List Row)
+    (hC : CompactOk rel (genCfg a b d)) (s : St) (hs : Inv rel R0 s) (h0 : s.mans = []) (ins : List Path)
+    (k mid : Nat) (hk : (jobProgram (genCfg a b d) s ins)[k]? = some (.delManifest mid)) :
+    let t := applyMuts (bump s) ((jobProgram (genCfg a b d) s ins).take k)
+    (∃ f, t.get (jobManifest s ins).out = some f ∧ f.complete = true) ∧
+      ∀ p ∈ (jobManifest s ins).inputs, t.get p = none := by
+  have hsteps : (genCfg a b d).steps = canonSteps := C09_job_order
+  rw [jobProgram_canon hsteps] at hk ⊢
+  by_cases he : (validInputs s ins).isEmpty = true
+  · simp [he] at hk
+  · simp only [he, Bool.false_eq_true, if_false] at hk ⊢
+    match k with
+    | 0 => simp at hk
+    | 1 => simp at hk
+    | j + 2 =>
+      simp only [List.getElem?_cons_succ] at hk
+      have hj : j = (jobManifest s ins).inputs.length := by
+        rcases Nat.lt_trichotomy j (jobManifest s ins).inputs.length with hlt | heq | hgt
+        · exfalso
+          rw [List.getElem?_append_left (by simpa using hlt)] at hk
+          simp only [List.getElem?_map, Option.map_eq_some_iff] at hk
+          obtain ⟨q, _, hqe⟩ := hk
+          cases hqe
+        · exact heq
+        · exfalso
+          rw [List.getElem?_append_right (by simpa using Nat.le_of_lt hgt)] at hk
+          simp only [List.length_map] at hk
+          cases hx : j - (jobManifest s ins).inputs.length with
+          | zero => omega
+          | succ n => simp [hx] at hk
+      simp only [List.take_succ_cons]
+      rw [List.take_append_of_le_length (by simp [hj]), after_two hC hsteps s hs h0 ins,
+        List.take_of_length_le (by simp [hj]), applyMuts_delInputs]
+      have hB := (js_deleted hC s hs h0 ins (jobManifest s ins).inputs (fun q hq => by simpa using hq)).2
+      obtain ⟨f, hlk, hc, _, _⟩ := hB
+      refine ⟨⟨f, hlk, hc⟩, ?_⟩
+      intro p hp
+      apply lookup_none_of_not_mem
+      intro hm
+      obtain ⟨g, hg⟩ := mem_keysOf.mp hm
+      exact (mem_delKeys.mp hg).2 hp
+
 /-! ## C09_full -/
 
 /-- a partition as found: distinct input paths below `outBase`, all files complete -/
